@@ -240,6 +240,7 @@ func vInitialFontWeight() (int, []string) {
 //@ func (*ComputedStyle).GetFontSize
 //@   props C04
 //@   pure refs
+//@   trusted "lazy getter: the computed value is a function of the style object; its cache writes are not observable through the accessors"
 
 // line-height (CSS 2.1 §10.8.1): normal and <number> are kept (the number is inherited as such),
 // a percentage computes to that percentage of the element's own computed font size, in px — it is
